@@ -814,6 +814,37 @@ fn run_case_on<D: Subject>(cx: &mut Ctx, c: &Case) {
                     }
                 }
             }
+            // a window [start, end) of the iteration is that part of the flattened sequence (BasicGarnishData; the
+            // SimpleGarnishData iterators do not take a window at the data level)
+            if D::NAME == "basic" {
+                let n = m.items.len();
+                'win: for start in 0..=n {
+                    for end in start..=n {
+                        let ext = Extents::new(SimpleNumber::Integer(start as i32), SimpleNumber::Integer(end as i32));
+                        let r = guard(|| d.get_concatenation_iter(b.target, ext).map(|it| it.map(|a| get(&d, a)).collect::<Vec<V>>()));
+                        let want_items = m.items[start..end].to_vec();
+                        let arg = format!("window {}..{}", start, end);
+                        match r {
+                            Err(p) => {
+                                let bad = Bad::Panic(p);
+                                rep.violation(&bad.kind(), "get_concatenation_iter", "-", &arg, &show_items(&want_items), &bad.shown());
+                                return;
+                            }
+                            Ok(Err(e)) => {
+                                let bad = Bad::Err(format!("{}", e));
+                                rep.violation(&bad.kind(), "get_concatenation_iter", "-", &arg, &show_items(&want_items), &bad.shown());
+                                break 'win;
+                            }
+                            Ok(Ok(vs)) => {
+                                if vs != want_items {
+                                    rep.violation("window-is-not-that-part-of-the-sequence", "get_concatenation_iter", "-", &arg, &show_items(&want_items), &show_items(&vs));
+                                    break 'win;
+                                }
+                            }
+                        }
+                    }
+                }
+            }
             // (the parts themselves are plain lists and are covered by the list segments)
             check_instr(&mut rep, &mut d, b.target, &m, false);
         }
@@ -1212,6 +1243,96 @@ impl Layout {
     }
 }
 
+
+// ---------------------------------------------------------------------------------------------
+// symbol-list chains (BasicGarnishData, the implementation whose symbol lists hold numbers): applying `key . index`
+// or `key . key` to a list looks each part up in the value the previous part found
+
+fn chain_cases() -> Vec<(Vec<crate::val::SymPart>, V)> {
+    use crate::val::SymPart::{Num, Sym};
+    let s = |n: &str| garnish_lang_simple_data::symbol_value(n);
+    let inner2 = V::List(vec![V::Int(400), V::pair(V::Sym(s("k3")), V::Int(500))]);
+    vec![
+        (vec![Sym(s("k1")), Num(0)], V::Int(100)),
+        (vec![Sym(s("k1")), Num(1)], V::Int(200)),
+        (vec![Sym(s("k1")), Num(2)], V::Int(300)),
+        (vec![Sym(s("k1")), Num(5)], V::Unit),
+        (vec![Sym(s("k2")), Num(0)], V::Int(400)),
+        (vec![Sym(s("k2")), Sym(s("k3"))], V::Int(500)),
+        (vec![Sym(s("k2")), Num(1)], V::pair(V::Sym(s("k3")), V::Int(500))),
+        (vec![Sym(s("k1")), Sym(s("k3"))], V::Unit),
+        (vec![Sym(s("k3")), Num(0)], V::Unit),
+        (vec![Sym(s("k2")), Sym(s("k3")), Num(0)], V::Unit),
+        (vec![Sym(s("k2")), Num(1), Num(0)], V::pair(V::Sym(s("k3")), V::Int(500))),
+        (vec![Sym(s("k4")), Num(1)], V::Unit),
+    ]
+    .into_iter()
+    .map(|(p, v)| {
+        let _ = &inner2;
+        (p, v)
+    })
+    .collect()
+}
+
+fn chain_list() -> V {
+    let s = |n: &str| garnish_lang_simple_data::symbol_value(n);
+    V::List(vec![
+        V::pair(V::Sym(s("k1")), V::List(vec![V::Int(100), V::Int(200), V::Int(300)])),
+        V::Int(7),
+        V::Int(8),
+        V::pair(V::Sym(s("k2")), V::List(vec![V::Int(400), V::pair(V::Sym(s("k3")), V::Int(500))])),
+        V::pair(V::Sym(s("k4")), V::Int(9)),
+    ])
+}
+
+fn chain_case(ci: usize, pad: usize) -> Option<(String, String, String)> {
+    let cases = chain_cases();
+    let (parts, want) = &cases[ci];
+    let r = guard(|| -> Result<Option<(String, String)>, String> {
+        let mut d = BData::fresh(Host::none());
+        for k in 0..pad {
+            put(&mut d, &V::Int(9000 + k as i32)).map_err(|e| format!("{}", e))?;
+        }
+        let l = put(&mut d, &chain_list()).map_err(|e| format!("{}", e))?;
+        let sl = put(&mut d, &V::SymList(parts.clone())).map_err(|e| format!("{}", e))?;
+        use garnish_lang_traits::GarnishData;
+        d.push_register(l).map_err(|e| format!("{}", e))?;
+        d.push_register(sl).map_err(|e| format!("{}", e))?;
+        match ops::apply(&mut d) {
+            Err(e) => Ok(Some(("chain-apply-failed".into(), format!("{:?}", e.get_message())))),
+            Ok(_) => {
+                let n = d.get_register_len();
+                let top = if n == 0 { None } else { d.get_register(n - 1) };
+                match top {
+                    None => Ok(Some(("chain-left-no-result".into(), String::new()))),
+                    Some(a) => {
+                        let got = get(&d, a);
+                        if got == *want { Ok(None) } else { Ok(Some(("chain-found-the-wrong-value".into(), got.show()))) }
+                    }
+                }
+            }
+        }
+    });
+    let shown = format!("(:k1 = (100 200 300), 7, 8, :k2 = (400, :k3 = 500), :k4 = 9) <~ {}", V::SymList(parts.clone()).show());
+    match r {
+        Ok(Ok(None)) => None,
+        Ok(Ok(Some((kind, got)))) => Some((kind, shown, format!("got {} expected {}", got, want.show()))),
+        Ok(Err(e)) => Some(("chain-setup-failed".into(), shown, e)),
+        Err(p) => Some((format!("panic[{}]", panic_kind(&p)), shown, p)),
+    }
+}
+
+fn run_chain(cx: &mut Ctx, ci: usize) {
+    for pad in [0usize, 3] {
+        cx.eval();
+        match chain_case(ci, pad) {
+            None => cx.nontrivial(("chain", ci, pad)),
+            Some((kind, shown, det)) => cx.violation(&kind, &format!("basic/chain/{}", ci), json!({"mode": "chain", "case": ci, "pad": pad, "shown": shown, "detail": det})),
+        }
+    }
+}
+
+
 impl Property for C16 {
     fn id(&self) -> &'static str {
         "C16"
@@ -1220,7 +1341,7 @@ impl Property for C16 {
         "exploration"
     }
     fn size(&self, tier: Tier) -> u64 {
-        layout(tier).total
+        layout(tier).total + chain_cases().len() as u64
     }
     fn budget_ms(&self) -> u64 {
         // an element is a few ms of work; the margin only absorbs scheduler stalls on a loaded machine
@@ -1234,6 +1355,10 @@ impl Property for C16 {
     }
     fn run(&self, tier: Tier, idx: u64, cx: &mut Ctx) {
         let lay = layout(tier);
+        if idx >= lay.total {
+            run_chain(cx, (idx - lay.total) as usize);
+            return;
+        }
         let (e, local) = match lay.locate(idx) {
             Some(x) => x,
             None => return,
@@ -1271,6 +1396,15 @@ impl Property for C16 {
         }
     }
     fn replay(&self, detail: &Value, cx: &mut Ctx) {
+        if detail["mode"].as_str() == Some("chain") {
+            let ci = detail["case"].as_u64().unwrap_or(0) as usize;
+            if ci < chain_cases().len() {
+                if let Some((kind, shown, det)) = chain_case(ci, detail["pad"].as_u64().unwrap_or(0) as usize) {
+                    cx.violation(&kind, &format!("basic/chain/{}", ci), json!({"mode": "chain", "shown": shown, "detail": det}));
+                }
+            }
+            return;
+        }
         let c = match case_from_json(&detail["case"]) {
             Some(c) => c,
             None => return,
@@ -1294,7 +1428,7 @@ impl Property for C16 {
         );
         Meta {
             rule: format!(
-                "every list of length 0..{n} over the item kinds {{number, text, bare symbol, unit, pair keyed by symbol, pair keyed by number, nested list}} x every ordered choice of distinct key symbols from {pool} for the symbol-keyed slots x {pads} pre-existing values in the data object x {{simple, basic}}; every concatenation of {cat} and of three lists of length <= 1 in both nestings, same key choices x {{0,1,7}} pre-existing values; {extra} with 8 keyed/unkeyed masks x 8 key families (multiples of the length ascending and descending, len-1 modulo len, ascending, descending, extremes interleaved, top of the u64 range colliding modulo len, powers of two). Per case: get_list_len, get_list_item at every index 0..n-1 and at n, n+1, 2^31-1, -1 and -2^31, get_list_item_iter with full extents, get_list_item_with_symbol for every key, every key +-1, the pool and a symbol that only occurs inside nested lists; the same list built with the runtime's make_list and read through access / apply (indexes also -1 and i32::MIN) and access_length_internal; concatenations through get_concatenation_iter, access and access_length_internal. One evaluation = one case (one concrete list or concatenation in one data object). A case is non-trivial when it holds at least one pair keyed by a symbol; distinct by (implementation, pre-existing values, form, item kinds, keys)."
+                "every list of length 0..{n} over the item kinds {{number, text, bare symbol, unit, pair keyed by symbol, pair keyed by number, nested list}} x every ordered choice of distinct key symbols from {pool} for the symbol-keyed slots x {pads} pre-existing values in the data object x {{simple, basic}}; every concatenation of {cat} and of three lists of length <= 1 in both nestings, same key choices x {{0,1,7}} pre-existing values; {extra} with 8 keyed/unkeyed masks x 8 key families (multiples of the length ascending and descending, len-1 modulo len, ascending, descending, extremes interleaved, top of the u64 range colliding modulo len, powers of two). Per case: get_list_len, get_list_item at every index 0..n-1 and at n, n+1, 2^31-1, -1 and -2^31, get_list_item_iter with full extents, get_list_item_with_symbol for every key, every key +-1, the pool and a symbol that only occurs inside nested lists; the same list built with the runtime's make_list and read through access / apply (indexes also -1 and i32::MIN) and access_length_internal; concatenations through get_concatenation_iter (full extents; on BasicGarnishData also every window start..end), access and access_length_internal. Plus 12 symbol-list chains (`key . index`, `key . key`, ...) applied to a list with nested lists on BasicGarnishData: each part is looked up in the value the previous part found. One evaluation = one case (one concrete list or concatenation in one data object). A case is non-trivial when it holds at least one pair keyed by a symbol; distinct by (implementation, pre-existing values, form, item kinds, keys)."
             ),
             assumptions: vec![
                 "items are compared by value read back through the trait getters, not by address".into(),
